@@ -1173,6 +1173,24 @@ def validate(seed: int = 0) -> tuple[int, list[str]]:
     rnd = random.Random(seed)
     bad: list[str] = []
     n = 0
+    VALIDATION_UNAVAILABLE.clear()
+    try:
+        n, bad = _validate_upgrade(rnd, n, bad)
+    except Exception as e:  # noqa: BLE001 - the function left the subset the interpreter models: not a verdict
+        VALIDATION_UNAVAILABLE["upgrade_read"] = f"{type(e).__name__}: {e}"
+    try:
+        n, bad = _validate_host(rnd, n, bad)
+    except Exception as e:  # noqa: BLE001
+        VALIDATION_UNAVAILABLE["host_header"] = f"{type(e).__name__}: {e}"
+    return n, bad
+
+
+VALIDATION_UNAVAILABLE: dict[str, str] = {}  # kernel -> why the differential validation could not run
+
+
+def _validate_upgrade(rnd: random.Random, n: int, bad: list[str]) -> tuple[int, list[str]]:
+    from httpcore._sync.http11 import HTTP11UpgradeStream
+
     fns = functions_of(HTTP11UpgradeStream)
     for _ in range(60):
         leading = bytes(rnd.randrange(256) for _ in range(rnd.randrange(0, 7)))
@@ -1194,6 +1212,13 @@ def validate(seed: int = 0) -> tuple[int, list[str]]:
         n += 1
         if len(paths) != 1 or paths[0].ret != r_real or st["self"].attrs["_leading_data"] != real._leading_data:
             bad.append(f"upgrade read {leading!r} {mb}")
+    return n, bad
+
+
+def _validate_host(rnd: random.Random, n: int, bad: list[str]) -> tuple[int, list[str]]:
+    import httpcore
+    import httpcore._models as models
+
     fns2 = functions_of(models.include_request_headers)
     if hasattr(models, "authority_host"):
         fns2.update(functions_of(models.authority_host))
